@@ -6,10 +6,10 @@ SD="$1"; DEMO="$2"; DEST="$3"; RUN="$4"; shift 4
 D=$(mktemp -d /tmp/vseed.XXXXXX)
 rsync -a --exclude .git /repo/ "$D/"
 mkdir -p "$D/$DEST"; cp "$SD/$DEMO" "$D/$DEST/"
-echo "--- demo WITHOUT change:"; ( cd "$D/$DEST" && GOPROXY=off go test -mod=mod -vet=off -count=1 -run "$RUN" . 2>&1 | tail -3 )
+echo "--- demo WITHOUT change:"; ( cd "$D/$DEST" && GOPROXY=off go test -mod=mod -vet=off -count=1 $DEMO_FLAGS -run "$RUN" . 2>&1 | tail -3 )
 ( cd "$D" && patch -p1 -s < "$SD/patch.diff" ) || { echo "PATCH FAILED"; rm -rf "$D"; exit 2; }
 ( cd "$D" && go build ./... ) || { echo "DOES NOT COMPILE"; rm -rf "$D"; exit 2; }
-echo "--- demo WITH change:"; ( cd "$D/$DEST" && GOPROXY=off go test -mod=mod -vet=off -count=1 -run "$RUN" . 2>&1 | tail -4 )
+echo "--- demo WITH change:"; ( cd "$D/$DEST" && GOPROXY=off go test -mod=mod -vet=off -count=1 $DEMO_FLAGS -run "$RUN" . 2>&1 | tail -4 )
 rm -f "$D/$DEST/$DEMO"
 echo "--- suite WITH change:"; ( cd "$D" && GOPROXY=off go test -mod=mod -vet=off -count=1 ./internal/... ./e2e/... 2>&1 | grep -v "no test files" | tail -6 )
 for p in "$@"; do
